@@ -107,6 +107,10 @@ def check_function(I, target, build, spec, F, name, result_name="result", state_
     except ShapeError as e:
         T.SIDE = None
         I.no_contract = saved_nc
+        if any(t in str(e) for t in ("Σ(", "[", "ite(", "argm")):
+            # a shape that depends on the DATA (the number of rows a boolean mask selects, ...): the shape algebra of the model does
+            # not cover it -- undecided, not a shape error of the code
+            return [Clause(name + ".shape", "undecided", "npsym", "data-dependent shapes at %s are outside the shape model: %s" % (I.loc, e), secs=time.time() - t0)]
         return [Clause(name + ".shape", "refuted", "npsym", "the code raises a shape error for generic shapes at %s: %s" % (I.loc, e),
                        secs=time.time() - t0)]
     finally:
